@@ -50,22 +50,26 @@ Definition leaky_pget (s : pstate) (t : nat) (th : pthread) (sig : nat) : pstate
   | Some x =>
     mkPS (plimit s) (pmaxage s) created' idle' (pclock s) (pnext s) sig destroyed'
          (upd_nth (pthreads s) t (mkPT PIdle (pscript th) (S (popi th)) (x :: pheld th) (pres th ++ [Z.of_nat x])))
+         false
   | None =>
     if Nat.ltb created' (plimit s) then
       mkPS (plimit s) (pmaxage s) (S created') idle' (pclock s) (S (pnext s)) sig destroyed'
-           (upd_nth (pthreads s) t (mkPT PIdle (pscript th) (S (popi th)) (pnext s :: pheld th)
-                                         (pres th ++ [Z.of_nat (pnext s)])))
+           (upd_nth (pthreads s) t (mkPT (PCreating (pnext s)) (pscript th) (popi th) (pnext s :: pheld th) (pres th)))
+           true
     else
       mkPS (plimit s) (pmaxage s) created' idle' (pclock s) (pnext s) sig destroyed'
            (upd_nth (pthreads s) t (mkPT PWaiting (pscript th) (popi th) (pheld th) (pres th)))
+           false
   end.
 
 Definition leaky_pstep (s : pstate) (t : nat) : option pstate :=
   match nth_error (pthreads s) t with
   | Some th =>
     match pcur th, ppcof th with
-    | Some PGet, PIdle => Some (leaky_pget s t th (psig s))
-    | Some _, PWaiting => if Nat.ltb 0 (psig s) then Some (leaky_pget s t th (pred (psig s))) else None
+    | Some PGet, PEnter => if plocked s then None else Some (leaky_pget s t th (psig s))
+    | Some _, PWaiting =>
+      if plocked s then None else
+      if Nat.ltb 0 (psig s) then Some (leaky_pget s t th (pred (psig s))) else None
     | _, _ => pstep s t
     end
   | None => None
@@ -80,11 +84,60 @@ Theorem leaky_expiry_leak_refuted :
     pcreated s <> length (pidle s) + pheldcount s /\
     pidle s = [] /\ pheldcount s = 0 /\ map ppcof (pthreads s) = [PWaiting] /\ pdestroyed s = [0].
 Proof.
-  exists 1, 100%Z, [[PGet; PPut; PAdv 500; PGet]], [0;0;0;0].
+  exists 1, 100%Z, [[PGet; PPut; PAdv 500; PGet]], [0;0;0; 0;0; 0; 0;0].
   vm_compute. repeat split; auto. discriminate.
 Qed.
 
 Example real_pool_recreates :
-  let s := pexec 1 100 [[PGet; PPut; PAdv 500; PGet]] [0;0;0;0] in
+  let s := pexec 1 100 [[PGet; PPut; PAdv 500; PGet]] [0;0;0; 0;0; 0; 0;0;0] in
   (pcreated s, map pheld (pthreads s), pdestroyed s) = (1, [[1]], [0]).
+Proof. vm_compute. reflexivity. Qed.
+
+(* (c) Pool.Get that calls create() after RELEASING the lock and counts the new resource only
+   afterwards: the limit check and the increment are not atomic. *)
+Definition unlocked_create_pget (s : pstate) (t : nat) (th : pthread) (sig : nat) : pstate :=
+  let '(got, idle', created', destroyed') := pdrain (pmaxage s) (pclock s) (pidle s) (pcreated s) (pdestroyed s) in
+  match got with
+  | Some x =>
+    mkPS (plimit s) (pmaxage s) created' idle' (pclock s) (pnext s) sig destroyed'
+         (upd_nth (pthreads s) t (mkPT PIdle (pscript th) (S (popi th)) (x :: pheld th) (pres th ++ [Z.of_nat x])))
+         false
+  | None =>
+    if Nat.ltb created' (plimit s) then   (* admitted; lock released; created not yet counted *)
+      mkPS (plimit s) (pmaxage s) created' idle' (pclock s) (S (pnext s)) sig destroyed'
+           (upd_nth (pthreads s) t (mkPT (PCreating (pnext s)) (pscript th) (popi th) (pnext s :: pheld th) (pres th)))
+           false
+    else
+      mkPS (plimit s) (pmaxage s) created' idle' (pclock s) (pnext s) sig destroyed'
+           (upd_nth (pthreads s) t (mkPT PWaiting (pscript th) (popi th) (pheld th) (pres th)))
+           false
+  end.
+
+Definition unlocked_create_pstep (s : pstate) (t : nat) : option pstate :=
+  match nth_error (pthreads s) t with
+  | Some th =>
+    match pcur th, ppcof th with
+    | Some PGet, PEnter => Some (unlocked_create_pget s t th (psig s))
+    | Some _, PCreating x =>      (* create() returned: now count it *)
+      Some (mkPS (plimit s) (pmaxage s) (S (pcreated s)) (pidle s) (pclock s) (pnext s) (psig s) (pdestroyed s)
+                 (upd_nth (pthreads s) t (mkPT PIdle (pscript th) (S (popi th)) (pheld th) (pres th ++ [Z.of_nat x])))
+                 false)
+    | _, _ => pstep s t
+    end
+  | None => None
+  end.
+
+(* limit 1: three Gets overlap the first create(): all are let in, three resources exist *)
+Theorem unlocked_create_limit_exceeded_refuted :
+  exists n scripts sched,
+    let s := run unlocked_create_pstep (pinit n 0 scripts) sched in
+    n < pcreated s /\ n < pheldcount s.
+Proof.
+  exists 1, [[PGet]; [PGet]; [PGet]], [0;0; 1;1; 2;2; 0; 1; 2].
+  vm_compute. split; repeat constructor.
+Qed.
+
+Example real_pool_excludes_during_create :
+  let s := pexec 1 0 [[PGet]; [PGet]; [PGet]] [0;0; 1;1; 2;2; 0; 1; 2] in
+  (pcreated s, map ppcof (pthreads s)) = (1, [PIdle; PWaiting; PWaiting]).
 Proof. vm_compute. reflexivity. Qed.
